@@ -5,32 +5,117 @@ import (
 	"time"
 )
 
+// NumPrefixes must equal len(vPrefixes) in harness/core/zz_verif_prefixes.go.
+const NumPrefixes = 56
+
+const contractLoc = "jerr.NewLocation replaced by its contract (panics iff the file is nil; returns File/Index unchanged; Line, Column, Quote opaque) — the contract itself is decided on the real code by the location-contract jobs (C07, also run inside C01)"
+const contractRune = "bytes.Bytes.DecodeRune (used only to render the offending character into error text) evaluated on the concrete witness; error message text after the constant prefix is outside the claim"
+
 // PropFn runs all jobs of a property for a tier and returns the exit code.
 type PropFn func(c *Ctx) int
 
 var Props = map[string]PropFn{
 	"C13": propC13,
 	"C01": propC01,
+	"C07": propC07,
+	"C14": propC14,
 }
 
 func propC01(c *Ctx) int {
-	maxN := 4
-	if c.Tier == "thorough" {
-		maxN = 6
+	thorough := c.Tier == "thorough"
+	maxN, k := 4, 2
+	if thorough {
+		maxN, k = 5, 3
 	}
+	base := Job{Pkg: "core", Stubs: []string{"loc", "rune"}, PanicIsViolation: true, MaxPaths: 3000000, Timeout: 60 * time.Minute, MaxSteps: 3000000, MaxDepth: 400, ReplayCap: 40000}
+	// a. all-symbolic root files through the whole build
 	for n := 0; n <= maxN; n++ {
-		c.RunJob(Job{Name: fmt.Sprintf("scanproject n=%d", n), Pkg: "core", Fn: "HScanProject",
-			Params: map[string]int64{"n": int64(n)}, Stubs: []string{"loc", "rune"},
-			PanicIsViolation: true, MaxPaths: 3000000, Timeout: 40 * time.Minute, MaxSteps: 200000, ReplayCap: 60000})
+		j := base
+		j.Name, j.Fn, j.Params = fmt.Sprintf("build all-symbolic n=%d", n), "HBuild", map[string]int64{"n": int64(n), "pre": 0}
+		c.RunJob(j)
 	}
+	// a'. k symbolic bytes after every witness prefix (one per family of scanner/core state)
+	for pre := 1; pre < NumPrefixes; pre++ {
+		j := base
+		j.Name, j.Fn, j.Params = fmt.Sprintf("build prefix#%d +%dB", pre, k), "HBuild", map[string]int64{"n": int64(k), "pre": int64(pre)}
+		c.RunJob(j)
+	}
+	// b. macro call graphs (cycles of any length, undefined targets)
+	for m := 1; m <= 3; m++ {
+		j := base
+		j.Name, j.Fn, j.Params = fmt.Sprintf("macro graph %d macros", m), "HMacroGraph", map[string]int64{"macros": int64(m)}
+		j.MustReach = []string{"expanded"}
+		c.RunJob(j)
+	}
+	// c. the public entry point on missing / directory / empty / arbitrary root files
+	for kind := 0; kind <= 3; kind++ {
+		j := base
+		j.Pkg, j.Fn = "kit", "HNewJapi"
+		j.Name, j.Params = fmt.Sprintf("NewJapi kind=%d", kind), map[string]int64{"kind": int64(kind), "n": 3}
+		c.RunJob(j)
+	}
+	// d. include graphs (cyclic, self, missing, directory) — shared with C14
+	{
+		j := base
+		j.Name, j.Fn, j.Params = "include graph 3 files", "HIncludeGraph", map[string]int64{"files": 3}
+		c.RunJob(j)
+	}
+	// the NewLocation contract the stub relies on
+	locationContractJobs(c, 4)
 	return c.Finish("model_checking", []string{
-		"bound: root file of <= N arbitrary bytes (quick N=4, thorough N=6), all 256 values per byte",
+		fmt.Sprintf("bounds: root file of <= %d arbitrary bytes; %d arbitrary bytes after each of %d witness prefixes (harness/core/zz_verif_prefixes.go); macro graphs <= 3 macros; include graphs <= 3 files + root; per-path budget 3e6 SSA steps / call depth 400 (exceeding it = candidate hang / runaway recursion, replayed natively in a subprocess)", maxN, k, NumPrefixes-1),
+		"file system = virtual (os.Stat, os.ReadFile, reader.Read modelled; absent => ErrNotExist; directory => error)",
+		"jsight-schema-core (schema scanner/compiler) is executed symbolically from its own SSA; regexp, time.Parse, net/mail, reggen, json.Unmarshal run natively on concrete operands and are an explicit drop on symbolic ones",
 		contractLoc, contractRune,
 	}, map[string]interface{}{})
 }
 
-const contractLoc = "jerr.NewLocation replaced by its contract (panics iff file nil / content empty / index > len; Line, Column, Quote opaque) — the contract itself is decided by check C07"
-const contractRune = "bytes.Bytes.DecodeRune (used only to render the offending character into error text) evaluated on the concrete witness; error message text after the constant prefix is outside the claim"
+// locationContractJobs: jerr.NewLocation for all contents <= n bytes and all indices (never panics on a non-nil file; File/Index echo; truthful line/column/quote).
+func locationContractJobs(c *Ctx, n int) {
+	for conv := 0; conv <= 2; conv++ {
+		for k := 0; k <= n; k++ {
+			c.RunJob(Job{Name: fmt.Sprintf("location contract conv=%d n=%d", conv, k), Pkg: "jerr", Fn: "HLocation",
+				Params: map[string]int64{"n": int64(k), "conv": int64(conv)}, PanicIsViolation: true, MaxPaths: 2000000, Timeout: 30 * time.Minute})
+		}
+	}
+}
+
+func propC07(c *Ctx) int {
+	n := 5
+	if c.Tier == "thorough" {
+		n = 8
+	}
+	locationContractJobs(c, n)
+	return c.Finish("model_checking", []string{
+		fmt.Sprintf("bound: file content <= %d arbitrary bytes, every index 0..len+2, one of three line-ending conventions (LF only / CRLF only / CR only); lines longer than 200 bytes (truncated quote) are outside the bound", n),
+		"reference line/column/quote computed in the harness (harness/jerr/zz_verif_c07.go): line = 1 + terminators before the index, column = bytes since the line start + 1, quote = the line without terminator, leading blanks dropped",
+	}, map[string]interface{}{})
+}
+
+func propC14(c *Ctx) int {
+	thorough := c.Tier == "thorough"
+	un, nn := 5, 3
+	if thorough {
+		un, nn = 7, 4
+	}
+	for n := 0; n <= un; n++ {
+		c.RunJob(Job{Name: fmt.Sprintf("name unit n=%d", n), Pkg: "core", Fn: "HIncludeNameUnit", Params: map[string]int64{"n": int64(n)},
+			PanicIsViolation: true, MaxPaths: 2000000, Timeout: 30 * time.Minute})
+	}
+	for n := 0; n <= nn; n++ {
+		c.RunJob(Job{Name: fmt.Sprintf("name through scanner+fs n=%d", n), Pkg: "core", Fn: "HIncludeName", Params: map[string]int64{"n": int64(n)},
+			Stubs: []string{"loc", "rune"}, PanicIsViolation: true, MaxPaths: 2000000, Timeout: 30 * time.Minute})
+	}
+	c.RunJob(Job{Name: "include graph 3 files", Pkg: "core", Fn: "HIncludeGraph", Params: map[string]int64{"files": 3},
+		Stubs: []string{"loc", "rune"}, PanicIsViolation: true, MaxPaths: 2000000, Timeout: 30 * time.Minute,
+		MustReach: []string{"graph-accepted", "graph-cycle", "graph-missing", "graph-dir"}})
+	return c.Finish("model_checking", []string{
+		fmt.Sprintf("bounds: INCLUDE parameter of <= %d arbitrary bytes (all 256 values) for the name check alone, <= %d bytes through scanner + processInclude + virtual file system; include graphs: root with two INCLUDEs + 3 files with one INCLUDE each, targets over {a,b,c,directory,missing,none}", un, nn),
+		"file system = virtual (every path handed to os.Stat/os.ReadFile is logged symbolically and asserted to stay inside the including file's directory); symlinks, case-folding file systems and Windows separators are outside the claim",
+		"path/filepath.Join/Dir/Clean are executed from the standard library's own SSA",
+		contractLoc, contractRune,
+	}, map[string]interface{}{})
+}
 
 func propC13(c *Ctx) int {
 	maxCtx := 0
